@@ -65,9 +65,9 @@ TrNew ==
 \* one coupon into one sketch
 TrUpd ==
   /\ IsEv("Upd")
-  /\ LET i == Ev.id  c == <<Ev.c[1], Ev.c[2]>>  n == Update(obj[i], c) IN
-     /\ obj' = [obj EXCEPT ![i] = n]
-     /\ On("C02") => Sc(n, c[1]) = Ev.st
+  /\ obj' = [obj EXCEPT ![Ev.id] = Update(@, <<Ev.c[1], Ev.c[2]>>)]
+  /\ LET n == obj'[Ev.id] IN
+     /\ On("C02") => Sc(n, Ev.c[1]) = Ev.st
      /\ ObsOK(n, Ev.o)
   /\ UNCHANGED uni
 
@@ -75,14 +75,13 @@ TrUpd ==
 \* estimates and bounds, bit for bit
 TrUpd3 ==
   /\ IsEv("Upd3")
-  /\ LET c == <<Ev.c[1], Ev.c[2]>>
-         n == [j \in 1..3 |-> Update(obj[Ev.ids[j]], c)] IN
-     /\ obj' = [i \in DOMAIN obj |->
-                  IF \E j \in 1..3 : Ev.ids[j] = i
-                  THEN n[CHOOSE j \in 1..3 : Ev.ids[j] = i] ELSE obj[i]]
-     /\ \A j \in 1..3 : /\ On("C02") => Sc(n[j], c[1]) = Ev.st[j]
-                        /\ ObsOK(n[j], Ev.o[j])
-     /\ On("C02") => (Ev.tok[1] = Ev.tok[2] /\ Ev.tok[2] = Ev.tok[3])
+  /\ obj' = [i \in DOMAIN obj |->
+               IF \E j \in 1..3 : Ev.ids[j] = i
+               THEN Update(obj[i], <<Ev.c[1], Ev.c[2]>>) ELSE obj[i]]
+  /\ \A j \in 1..3 : LET n == obj'[Ev.ids[j]] IN
+                       /\ On("C02") => Sc(n, Ev.c[1]) = Ev.st[j]
+                       /\ ObsOK(n, Ev.o[j])
+  /\ On("C02") => (Ev.tok[1] = Ev.tok[2] /\ Ev.tok[2] = Ev.tok[3])
   /\ UNCHANGED uni
 
 \* full state comparison
@@ -96,8 +95,8 @@ TrChk ==
 \* same observable state and the same estimates/bounds bit for bit
 TrRT ==
   /\ IsEv("RT")
-  /\ LET n == RoundTrip(obj[Ev.id]) IN
-     /\ obj' = Put(obj, Ev.to, n)
+  /\ obj' = Put(obj, Ev.to, RoundTrip(obj[Ev.id]))
+  /\ LET n == obj'[Ev.to] IN
      /\ On("C11") => (/\ Full(n) = Ev.st /\ Ev.tok[1] = Ev.tok[2]
                        /\ Ev.samex /\ (CanonicalImage(n) => Ev.same))
      /\ ObsOK(n, Ev.o)
@@ -114,14 +113,14 @@ GadgetOK(u, e) ==
 
 TrUUpd ==
   /\ IsEv("UUpd")
-  /\ LET n == UnionUpdate(uni[Ev.id], obj[Ev.src]) IN
-     uni' = [uni EXCEPT ![Ev.id] = n] /\ GadgetOK(n, Ev)
+  /\ uni' = [uni EXCEPT ![Ev.id] = UnionUpdate(@, obj[Ev.src])]
+  /\ GadgetOK(uni'[Ev.id], Ev)
   /\ UNCHANGED obj
 
 TrUVal ==
   /\ IsEv("UVal")
-  /\ LET n == UnionValue(uni[Ev.id], <<Ev.c[1], Ev.c[2]>>) IN
-     uni' = [uni EXCEPT ![Ev.id] = n] /\ GadgetOK(n, Ev)
+  /\ uni' = [uni EXCEPT ![Ev.id] = UnionValue(@, <<Ev.c[1], Ev.c[2]>>)]
+  /\ GadgetOK(uni'[Ev.id], Ev)
   /\ UNCHANGED obj
 
 TrUReset ==
@@ -139,12 +138,12 @@ TrUChk ==
 \* same estimate and bounds bit for bit, also equal to the union's own
 TrUToSk3 ==
   /\ IsEv("UToSk3")
-  /\ LET u == uni[Ev.id]
-         n == [j \in 1..3 |-> ToSketch(u, Ev.types[j])] IN
-     /\ obj' = (Ev.to[1] :> n[1]) @@ (Ev.to[2] :> n[2]) @@ (Ev.to[3] :> n[3]) @@ obj
-     /\ \A j \in 1..3 : /\ On("C03") => Full(n[j]) = Ev.st[j]
-                        /\ ObsOK(n[j], Ev.o[j])
-     /\ On("C03") => (Ev.tok[1] = Ev.tok[2] /\ Ev.tok[2] = Ev.tok[3] /\ Ev.tok[3] = Ev.utok)
+  /\ obj' = (Ev.to[1] :> ToSketch(uni[Ev.id], Ev.types[1])) @@ (Ev.to[2] :> ToSketch(uni[Ev.id], Ev.types[2]))
+             @@ (Ev.to[3] :> ToSketch(uni[Ev.id], Ev.types[3])) @@ obj
+  /\ \A j \in 1..3 : LET n == obj'[Ev.to[j]] IN
+                       /\ On("C03") => Full(n) = Ev.st[j]
+                       /\ ObsOK(n, Ev.o[j])
+  /\ On("C03") => (Ev.tok[1] = Ev.tok[2] /\ Ev.tok[2] = Ev.tok[3] /\ Ev.tok[3] = Ev.utok)
   /\ UNCHANGED uni
 
 \* a panic on a valid operation is never explainable
